@@ -12,7 +12,7 @@ THEOREMS = ["GrpcProofs.C47." + t for t in (
     "present_match_partial", "present_match_counterexample",
     "decimal_spec", "caseEq_spec", "eqFold_spec", "prefixFold_spec", "suffixFold_spec", "infixFold_spec",
     "string_matcher_spec", "string_matcher_case_sensitive", "ignore_case_is_ascii_fold",
-    "from_proto_spec", "path_exact_spec", "path_prefix_spec", "path_regex_spec",
+    "from_proto_spec", "path_exact_spec", "path_prefix_spec", "path_regex_spec", "regex_full_string",
     "model_header_eq_spec")]
 DESIGN_REF = "DESIGN.md section 8, C47"
 TECHNIQUE = ("Lean 4 theorems (list induction, omega on the byte arithmetic of case folding) relating a port of the matcher code to an "
@@ -25,8 +25,9 @@ LEVEL_TEXT = ("Machine-checked Lean proof, for every byte string, header map and
               "an empty-valued header and Unicode case folding of non-ASCII bytes are violations of the unchanged code (known findings).")
 LEVEL_NOTE = ("Readings: (1) ASCII case-insensitive = same length and position-wise equal or the same ASCII letter in two cases "
               "(theorem caseEq_spec/eqFold_spec); (2) 'header present' = the key is in the header map, as the other seven matchers use "
-              "it; (3) regex is an opaque full-string predicate in the theorems; the tie uses a derivative matcher over a small AST "
-              "rendered to Go syntax and compiled by the real CompileSafeRegex (so dropping the ^(?:…)$ wrapping is a divergence); "
+              "it; (3) regex matchers are specified through Re.matches, a derivative matcher over a small AST that is proved to decide "
+              "full-string membership in the textbook language (regex_full_string); the AST is rendered to Go syntax and compiled by the real "
+              "CompileSafeRegex, so dropping the ^(?:…)$ wrapping is a divergence; Go's regexp is otherwise opaque; "
               "(4) range bounds are int64 (theorem hypothesis), which makes ParseInt's range error unobservable. "
               "Trusted: Lean kernel; the hand model lean/GrpcModel/Model/Matchers.lean (tied by differential runs); with case folding "
               "requested and a byte >= 128 present the model does not predict the code (output `*`): there only the monitor judges.")
